@@ -84,7 +84,7 @@ def k_cases(tier):
         for kfam in ('full', 'below-nyq', 'tiny', 'above0', 'beyond'):
             for mu in ((0.0, 1.0), (0.0, 0.5, 1.0), (0.0, 0.2, 0.4, 0.6, 0.8, 1.0)):
                 for poles in ((), (0,), (0, 2, 4)):
-                    out.append(dict(k='kmu', n1d=n1d, kfam=kfam, mu=mu, poles=poles, nthread=1 + n1d % 3))
+                    out.append(dict(k='kmu', n1d=n1d, kfam=kfam, mu=mu, poles=poles, nthread=1 + (n1d + len(mu)) % 3))
             for npi in (1, 3):
                 for pimax in ('half-nyq', 'nyq', '2nyq', 'tiny'):
                     out.append(dict(k='kppi', n1d=n1d, kfam=kfam, npi=npi, pimax=pimax, nthread=1 + n1d % 3))
@@ -331,17 +331,25 @@ def run(case):
         nt_flag = n == 0 or case['nthread'] > n or case['val'] == 'box'
     elif k in ('kmu', 'kppi'):
         from abacusnbody.analysis import power_spectrum as ps
+        import numba
         n1d = case['n1d']
+        # an earlier call may have left numba with fewer threads than this call asks for
+        if mode == 'bchk':
+            numba.set_num_threads(1)
         L = 100.0
         ke = kedges_for(case['kfam'], n1d, L)
         wts = (np.arange(n1d * n1d * (n1d // 2 + 1), dtype=np.float32) * 0.01 + 1).reshape(n1d, n1d, n1d // 2 + 1)
         if k == 'kmu':
-            f, _ = fn(ps.bin_kmu, mode)
+            f, rt_ = fn(ps.bin_kmu, mode)
+            if rt_ is not None:
+                rt_.nthreads = 1
             probs = guarded(lambda: f(n1d, L, ke, np.array(case['mu']), wts, poles=np.array(case['poles'], dtype=np.int64), nthread=case['nthread']), sig, what)
         else:
             kf = 2 * np.pi / L
             pim = {'half-nyq': 0.25 * n1d * kf, 'nyq': 0.5 * n1d * kf, '2nyq': n1d * kf, 'tiny': 0.3 * kf}[case['pimax']]
-            f, _ = fn(ps.bin_kppi, mode)
+            f, rt_ = fn(ps.bin_kppi, mode)
+            if rt_ is not None:
+                rt_.nthreads = 1
             probs = guarded(lambda: f(n1d, L, ke, pim, case['npi'], wts, nthread=case['nthread']), sig + ':pi-edge' , what)
         nt_flag = case['kfam'] in ('below-nyq', 'tiny', 'beyond') or case.get('pimax') in ('half-nyq', 'tiny')
     elif k == 'interp':
